@@ -667,12 +667,9 @@ pub fn state_invariants(b: &Book, sink: &mut Sink) -> Vec<(&'static str, String,
         // C09: fee still held = original fee scaled by unspent fraction of quote, to the nearest unit
         if let Some((_, f)) = &x.fee {
             if x.quote > 0 {
-                if let Some(ok) = Rat::new(rq as i128, x.quote as i128)
-                    .and_then(|r| r.mul(Rat::int(*f)?))
-                    .and_then(|r| r.nearest())
-                {
+                if let Some(ok) = pro_rata_nearest(*f, rq, x.quote) {
                     sink.c("C09/held-fee-states-checked");
-                    if Rat::new(rq as i128, x.quote as i128).and_then(|r| r.mul(Rat::int(*f)?)).map_or(false, |r| r.is_half_tie()) {
+                    if pro_rata_is_tie(*f, rq, x.quote) {
                         sink.c("C09/held-fee-exact-tie");
                     }
                     if !ok.contains(&rf) {
@@ -878,7 +875,7 @@ pub fn ref_match(book: &Book, sender: &str, ask_id: &str, bid_id: &str, price: &
         Some((_, f)) => {
             let scaled = |spent: u128| -> Option<Vec<u128>> {
                 let left = remq.checked_sub(spent)?;
-                Rat::new(left as i128, bid.quote as i128)?.mul(Rat::int(*f)?)?.nearest()
+                pro_rata_nearest(*f, left, bid.quote)
             };
             match (scaled(gross_u), scaled(orig_u)) {
                 (Some(n1s), Some(n2s)) => {
@@ -1353,10 +1350,7 @@ fn c04_reversal(tc: &TransCtx, sink: &mut Sink) {
             }
             let hs: Vec<u128> = match &bid.fee {
                 None => vec![0],
-                Some((_, f)) => match Rat::new((rq - cq) as i128, bid.quote as i128)
-                    .and_then(|x| x.mul(Rat::int(*f)?))
-                    .and_then(|x| x.nearest())
-                {
+                Some((_, f)) => match pro_rata_nearest(*f, rq - cq, bid.quote) {
                     Some(v) => v.into_iter().filter(|h| *h <= held).collect(),
                     None => return,
                 },
